@@ -91,6 +91,18 @@ tf!(t27, f27, (a: (u32, u32)), u32, 1, 2);
 tf!(t28, f28, (a: [u32; 2]), u32, 1, 2);
 tf!(t29, f29, (a: u8), u8, 1, 2);
 tf!(t30, f30, (a: u32, b: u32, c: u32), u32, 1, 2);
+pub mod ma {
+    #[derive(Debug)]
+    pub struct Cfg(pub u32);
+}
+pub mod mb {
+    #[derive(Debug)]
+    pub struct Cfg(pub u32);
+}
+tf!(t31, f31, (a: ma::Cfg), u32, 1, 2);
+tf!(t32, f32, (a: mb::Cfg), u32, 1, 2);
+tf!(t33, f33, (a: u32), Result<u32, std::fmt::Error>, Ok(1), Ok(2));
+tf!(t34, f34, (a: u32), Result<u32, std::io::Error>, Ok(1), Ok(2));
 
 macro_rules! ty {
     ($desc:expr, $lc:expr, $t:ident as $fty:ty, [$($tform:expr),*], [$($fform:expr),*]) => {
@@ -139,6 +151,10 @@ pub fn family() -> Vec<Ty> {
         ty!("safe|Rust|([u32;2])|u32", 0, t28 as fn([u32; 2]) -> u32, [func!(t28, fn([u32; 2]) -> u32)], [func!(f28, fn([u32; 2]) -> u32)]),
         ty!("safe|Rust|(u8)|u8", 0, t29 as fn(u8) -> u8, [func!(t29, fn(u8) -> u8)], [func!(f29, fn(u8) -> u8), closure!(|_a| 2, fn(u8) -> u8)]),
         ty!("safe|Rust|(u32,u32,u32)|u32", 0, t30 as fn(u32, u32, u32) -> u32, [func!(t30, fn(u32, u32, u32) -> u32)], [func!(f30, fn(u32, u32, u32) -> u32)]),
+        ty!("safe|Rust|(ma::Cfg)|u32", 0, t31 as fn(ma::Cfg) -> u32, [func!(t31, fn(ma::Cfg) -> u32)], [func!(f31, fn(ma::Cfg) -> u32), closure!(|_a| 2, fn(ma::Cfg) -> u32)]),
+        ty!("safe|Rust|(mb::Cfg)|u32", 0, t32 as fn(mb::Cfg) -> u32, [func!(t32, fn(mb::Cfg) -> u32)], [func!(f32, fn(mb::Cfg) -> u32), closure!(|_a| 2, fn(mb::Cfg) -> u32)]),
+        ty!("safe|Rust|(u32)|Result<u32,fmt::Error>", 0, t33 as fn(u32) -> Result<u32, std::fmt::Error>, [func!(t33, fn(u32) -> Result<u32, std::fmt::Error>)], [func!(f33, fn(u32) -> Result<u32, std::fmt::Error>)]),
+        ty!("safe|Rust|(u32)|Result<u32,io::Error>", 0, t34 as fn(u32) -> Result<u32, std::io::Error>, [func!(t34, fn(u32) -> Result<u32, std::io::Error>)], [func!(f34, fn(u32) -> Result<u32, std::io::Error>)]),
     ]
 }
 
